@@ -22,7 +22,7 @@ EXPLANATION = (
     "call, a changed width, endianness, magic constant or conversion type — is the violation. Plus state-machine rules of "
     "the hand-written poll_* implementations shared with C14.R3/C02.R1."
     " (R3) the async BGZF reader keeps the stamp/position pairing of C02.R6 in async fn seek, poll_seek and poll_fill_buf."
-    " (R4) poll functions: a value drained from the receiver's state is stored back or handed to the sink before any Poll::Pending return. (R5) the async BGZF reader's poll_seek state machine cannot answer Ready(Ok) from its resting state without the arm that seeks (genuine defect F29, repaired). (R6) the async CRAM flush advances record_counter by the length of the collection it handed to write_container. (R7) no accumulating read future is polled on the digesting CrcReader (shared with C12.R9). (R8) twin scanners agree on what the number they return counts (genuine defect F49, repaired).")
+    " (R4) poll functions: a value drained from the receiver's state is stored back or handed to the sink before any Poll::Pending return. (R5) the async BGZF reader's poll_seek state machine cannot answer Ready(Ok) from its resting state without the arm that seeks (genuine defect F29, repaired). (R6) the async CRAM flush advances record_counter by the length of the collection it handed to write_container. (R7) no accumulating read future is polled on the digesting CrcReader (shared with C12.R9). (R8) twin scanners agree on what the number they return counts (genuine defect F49, repaired). (R9) plain helper twins leave their loops on the same kinds of tests.")
 ASSUMPTIONS = ["the sync side is pinned by the unit-test suite; the async side inherits that through set equality",
                "the frozen differences are today's behaviour: recorded, partly triaged, not claimed equivalent"]
 NOT_DECIDED = ["equality of results under every poll schedule / Pending pattern (only the structural necessary part: same checks, "
@@ -197,6 +197,40 @@ def run(ctx):
                               "%s returns a %s count, its sync twin %s a %s count: the same call on the same input returns different numbers "
                               "(line terminators are consumed but not appended)" % (f.root, a, tw, s_), f.loc())
     ctx.floor("C16.R8", "twin scanner pairs whose returned count is classified on both sides", n8, 1)
+
+    ctx.rule("C16.R9", "twin pure helpers (plain functions that exist under the same path on the sync and the async side, e.g. the CSI writers' "
+                       "first_record_start_position) leave their loops on the same kinds of tests: a comparison folded into the loop condition "
+                       "on one side ends that side's walk early although both sides hold the same tokens (invisible to R1)")
+    def _loop_exit_sig(f_):
+        out = []
+        for _h, body in C.natural_loops(f_):
+            ex = set()
+            for b_ in body:
+                t_ = f_.blocks[b_]["t"]
+                if t_[0] == "sw" and any(x not in body for x in [tg for _v, tg in t_[2]] + [t_[3]]):
+                    cond = C.switch_condition(f_, b_)
+                    ex.add((cond[0], cond[1] if cond[0] == "cmp" else "") if cond else ("?", ""))
+            out.append(tuple(sorted(ex)))
+        return sorted(out)
+    n9 = 0
+    for k9, f9 in sorted(fb.fns.items()):
+        if "r#async::" not in k9 or not f9.blocks or f9.coro or f9.is_closure:
+            continue
+        g9 = fb.fns.get(k9.replace("r#async::", ""))
+        if g9 is None or not g9.blocks:
+            continue
+        a9_, s9_ = _loop_exit_sig(f9), _loop_exit_sig(g9)
+        if not a9_ or not s9_:
+            continue        # an `async fn` stub on one side: nothing to compare
+        n9 += 1
+        ctx.saw_fn(f9)
+        if a9_ == s9_:
+            ctx.ok("C16.R9", k9, "same loop-exit tests as the sync twin", f9.loc())
+        else:
+            ctx.violation("C16.R9", "C16.R9/loop-exit-tests-differ/" + k9,
+                          "%s leaves its loop(s) on %s, its sync twin on %s: the two copies of the helper stop at different points for the same "
+                          "input (e.g. the walk up the bin tree ends at the first ancestor that is not smaller)" % (k9, a9_, s9_), f9.loc())
+    ctx.floor("C16.R9", "plain helper twins with loops on both sides", n9, 1)
 
     ctx.rule("C16.R5", "poll_seek state machine of the async BGZF reader: from its resting state every way to Ready(Ok) passes the arm that "
                        "seeks the inner reader (the sync seek has no memory of earlier requests)")
